@@ -5,6 +5,7 @@ package checks
 import (
 	"bytes"
 	"fmt"
+	"golang.org/x/sys/unix"
 	"os"
 	"os/exec"
 	"strings"
@@ -27,6 +28,9 @@ import (
 type c08LimCase struct {
 	Runner string
 	Ls     []rlimit.RLimits // consecutive launches (on one container environment for the container runner)
+	// >0: one more listed descriptor, numbered >= HighFd in the launcher (a long-running judge's pipes are numbered in the
+	// hundreds) - it may well be above the RLIMIT_NOFILE the program is to run under
+	HighFd int `json:",omitempty"`
 }
 
 func c08Allow() []string {
@@ -133,7 +137,7 @@ type c08Env struct{ c09Env }
 
 func TestC08RLimits(t *testing.T) {
 	rec := vh.NewRecorder(t, "C08", "exploration",
-		"rlimit part: RLimits records (each field zero/non-zero, CPUHard below/equal/above CPU, values around 2^32 and 2^40 and 2^63-1, DisableCore) x runner in {ptrace, unshare, container}; the probe's getrlimit report of all 16 resources must equal PrepareRLimit() for configured resources (soft and hard, 64-bit exact) and the launcher's own limits for all others; non-trivial = >=2 limits configured with soft != hard or a value >= 2^32")
+		"rlimit part: RLimits records (each field zero/non-zero, CPUHard below/equal/above CPU, values around 2^32 and 2^40 and 2^63-1, DisableCore; one case in three lists one more descriptor numbered >= 40/100/300/900 in the launcher and uses NOFILE values of 16..256, i.e. below that number) x runner in {ptrace, unshare, container}; the probe's getrlimit report of all 16 resources must equal PrepareRLimit() for configured resources (soft and hard, 64-bit exact) and the launcher's own limits for all others; non-trivial = >=2 limits configured with soft != hard or a value >= 2^32")
 	own := ownLimits()
 	vh.Check(t, rec, func(rt *rapid.T) c08LimCase {
 		c := c08LimCase{Runner: rapid.SampledFrom([]string{"ptrace", "unshare", "container", "container"}).Draw(rt, "runner")}
@@ -141,10 +145,28 @@ func TestC08RLimits(t *testing.T) {
 		for i := 0; i < n; i++ {
 			c.Ls = append(c.Ls, c08GenLimits(rt))
 		}
+		if rapid.IntRange(0, 2).Draw(rt, "highfd") == 0 {
+			c.HighFd = rapid.SampledFrom([]int{40, 100, 300, 900}).Draw(rt, "highfdnum")
+			for i := range c.Ls {
+				if c.Ls[i].OpenFile <= 20000 && rapid.Bool().Draw(rt, "lownofile") {
+					c.Ls[i].OpenFile = rapid.SampledFrom([]uint64{16, 24, 32, 64, 256}).Draw(rt, "nofile-low")
+				}
+			}
+		}
 		return c
 	}, func(cc c08LimCase) error {
 		ce := &c09Env{}
 		defer ce.close()
+		var extra []*os.File
+		if cc.HighFd > 0 {
+			nfd, err := unix.FcntlInt(devNullFile().Fd(), unix.F_DUPFD_CLOEXEC, cc.HighFd)
+			if err != nil {
+				return vh.Infraf("dup to >= %d: %v", cc.HighFd, err)
+			}
+			hf := os.NewFile(uintptr(nfd), "high-numbered")
+			defer hf.Close()
+			extra = []*os.File{hf}
+		}
 		for li, lim := range cc.Ls {
 			c := struct {
 				Runner string
@@ -161,19 +183,22 @@ func TestC08RLimits(t *testing.T) {
 			var tr *tracedResult
 			switch c.Runner {
 			case "ptrace":
-				tr, err = runTraced(tracedOpts{Script: &s, Filter: filter, Handler: &recHandler{}, RLimits: rl})
+				tr, err = runTraced(tracedOpts{Script: &s, Filter: filter, Handler: &recHandler{}, RLimits: rl, Extra: extra})
 			case "unshare":
-				tr, err = runUnshare(sandboxOpts{Script: &s, Filter: filter, RLimits: rl})
+				tr, err = runUnshare(sandboxOpts{Script: &s, Filter: filter, RLimits: rl, Extra: extra})
 			default:
 				var env container.Environment
 				env, err = ce.get()
 				if err != nil {
 					return err
 				}
-				tr, err = runContainer(sandboxOpts{Script: &s, Filter: filter, RLimits: rl, Env: env})
+				tr, err = runContainer(sandboxOpts{Script: &s, Filter: filter, RLimits: rl, Env: env, Extra: extra})
 			}
 			if err != nil {
 				return err
+			}
+			if cc.HighFd > 0 && c.L.OpenFile > 0 && c.L.OpenFile <= uint64(cc.HighFd) {
+				rec.Class("listed-descriptor-numbered-above-the-configured-NOFILE", 1)
 			}
 			if tr.Hung {
 				killTagged(tr.Tag)
@@ -229,6 +254,9 @@ type c08VCase struct {
 	// how the program ends after the workload: "" = exit 0, "exit3", "segv" (a real fault): a program over the runner's
 	// bound is Time/Memory Limit Exceeded however it ends
 	Ending string `json:",omitempty"`
+	// the limit is tripped by a second thread while the main thread sleeps (the kernel sends SIGXFSZ to the writing thread
+	// and the process-wide SIGXCPU to a running one)
+	Thread bool `json:",omitempty"`
 }
 
 func c08RunVerdict(c c08VCase, ce *c09Env, mu *sync.Mutex) (runner.Result, *probe.Report, error) {
@@ -239,7 +267,14 @@ func c08RunVerdict(c c08VCase, ce *c09Env, mu *sync.Mutex) (runner.Result, *prob
 	switch c.Workload {
 	case "cpu-rlimit":
 		rl.CPU, rl.CPUHard = 1, 3
-		s.Add("spin:2500")
+		if c.Thread {
+			s.Add("thread{")
+			s.Add("spin:2500")
+			s.Add("}")
+			s.Add("sleep:6000")
+		} else {
+			s.Add("spin:2500")
+		}
 	case "cpu-hard-rlimit":
 		rl.CPU, rl.CPUHard = 1, 2
 		s.Add("sigign") // SIGXCPU ignored: the hard limit's SIGKILL ends it
@@ -253,7 +288,14 @@ func c08RunVerdict(c c08VCase, ce *c09Env, mu *sync.Mutex) (runner.Result, *prob
 		defer os.Remove(f.Name())
 		defer f.Close()
 		out = f
-		s.Add("grow:1:100000:1000")
+		if c.Thread {
+			s.Add("thread{")
+			s.Add("grow:1:100000:1000")
+			s.Add("}")
+			s.Add("sleep:3000")
+		} else {
+			s.Add("grow:1:100000:1000")
+		}
 	case "timelimit":
 		lim.TimeLimit = 100 * time.Millisecond
 		s.Add("spin:400")
@@ -365,7 +407,7 @@ func c08CheckVerdict(c c08VCase, res runner.Result) error {
 
 func TestC08Verdicts(t *testing.T) {
 	rec := vh.NewRecorder(t, "C08", "exploration",
-		"verdict part: runner in {ptrace, unshare, container} x workload in {spin past RLIMIT_CPU soft, spin past the hard limit with SIGXCPU ignored, write past RLIMIT_FSIZE, spin 400ms under a 100ms runner time bound, touch 96 MiB under a 32 MiB runner memory bound, stay far below all bounds} x (for the two runner bounds) ending in {exit 0, exit 3, real SIGSEGV}; expected Time/Output/Memory Limit Exceeded resp. Normal with plausible measurements (margins >=3x); rows the kernel does not produce for a pid-namespace init are relaxed")
+		"verdict part: runner in {ptrace, unshare, container} x workload in {spin past RLIMIT_CPU soft, spin past the hard limit with SIGXCPU ignored, write past RLIMIT_FSIZE (both also from a second thread while the main thread sleeps), spin 400ms under a 100ms runner time bound, touch 96 MiB under a 32 MiB runner memory bound, stay far below all bounds} x (for the two runner bounds) ending in {exit 0, exit 3, real SIGSEGV}; expected Time/Output/Memory Limit Exceeded resp. Normal with plausible measurements (margins >=3x); rows the kernel does not produce for a pid-namespace init are relaxed")
 	ce := &c09Env{}
 	defer ce.close()
 	var mu sync.Mutex
@@ -387,6 +429,9 @@ func TestC08Verdicts(t *testing.T) {
 	for _, r := range runners {
 		for _, w := range []string{"cpu-rlimit", "cpu-hard-rlimit", "fsize", "timelimit", "memlimit", "below"} {
 			cases = append(cases, c08VCase{Runner: r, Workload: w})
+		}
+		for _, w := range []string{"cpu-rlimit", "fsize"} {
+			cases = append(cases, c08VCase{Runner: r, Workload: w, Thread: true})
 		}
 		if r != "container" { // Execve has no time/memory bound of its own
 			for _, w := range []string{"timelimit", "memlimit"} {
@@ -422,7 +467,7 @@ func TestC08Verdicts(t *testing.T) {
 	wg.Wait()
 	close(ch)
 	for o := range ch {
-		rec.Case(o.c, o.c.Workload != "below", "runner="+o.c.Runner, "workload="+o.c.Workload, "ending="+map[string]string{"": "exit0"}[o.c.Ending]+o.c.Ending)
+		rec.Case(o.c, o.c.Workload != "below", "runner="+o.c.Runner, "workload="+o.c.Workload, "ending="+map[string]string{"": "exit0"}[o.c.Ending]+o.c.Ending, fmt.Sprintf("limit-tripped-by-second-thread=%v", o.c.Thread))
 		if o.err != nil {
 			vh.Report(t, rec, o.c, o.err)
 		}
